@@ -266,6 +266,7 @@ func (fc *FnCtx) applyContract(st *State, ct *Contract, callee *ssa.Function, si
 	post.Cur = st
 	post.Old = pre
 	post.Results = res
+	fc.applyGhostSets(ct, &post, st)
 	for _, cl := range ct.Ensures {
 		t := fc.evalClause(&post, cl)
 		fc.S.Assume(Implies(st.PC, t), "postcondition of "+ct.Key+" ["+cl.Label+"]")
